@@ -384,6 +384,23 @@ package git
 //gvc:  kf F24 safecrlf: stat.CRLF > 0 && spec_index_has_cr(strid(path))
 //gvc:end
 
+// copyFileToStorage (C31, add side: the blob stored on add is git's). The id
+// handed back for a path is the id of the one object this call stored, and
+// that object's content was produced by the filling function that applies the
+// line-ending rules (or by the symlink filler): there is no way around the
+// converter, e.g. by hashing the raw worktree bytes and finding them stored.
+//gvc:func (*Worktree).copyFileToStorage
+//gvc:  props C31
+//gvc:  theory int
+//gvc:  opt coarse
+//gvc:  opt frame args
+//gvc:  opt inline
+//gvc:  results hash err
+//gvc:  requires nn: cfg != nil && w.filesystem != nil && w.r != nil
+//gvc:  ensures converted: err == nil ==> calls("fillEncodedObjectFromFile") + calls("fillEncodedObjectFromSymlink") == 1 && calls("SetEncodedObject") == 1 && lastres("SetEncodedObject") == nil
+//gvc:  sink SetEncodedObject requires filled: arg0 == obj && calls("fillEncodedObjectFromFile") + calls("fillEncodedObjectFromSymlink") == 1
+//gvc:end
+
 // Property C29 for Pull: the current branch (or a detached HEAD) is moved to
 // the fetched commit before Reset can refuse (unstaged changes); a pull whose
 // Reset fails puts back the reference it moved: the saved reference is written
